@@ -500,6 +500,8 @@ class Interp:
         node = mod.constants.get(name)
         if isinstance(node, ast.Dict) and any(k_ is None for k_ in node.keys):
             pass                    # {'A': f, **{...}, 'B': g}: evaluated below
+        elif isinstance(node, ast.DictComp):
+            pass                    # {name: f(name) for name in TABLE}: evaluated below (rows of a constant table)
         else:
             if not isinstance(node, ast.Call):
                 return None
@@ -2278,9 +2280,17 @@ class _Frame:
                     # a, *rest = (x, y, z): rest is the list of the items in between
                     self.bind(e.value, T("list", (tuple(v.a[0][i:len(v.a[0]) - (n - 1 - i)]),)), st, stmt, record)
                 elif isinstance(e, ast.Starred):
-                    self.bind(e.value, T("unknown", ("starred-unpack",)), st, stmt, record)
+                    if sum(isinstance(e2, ast.Starred) for e2 in tgt.elts) == 1 and v.op not in ("unknown",):
+                        # a, *rest, z = xs: rest is xs[1:-1] (a list)
+                        hi_ = NONE if i == n - 1 else const(-(n - 1 - i))
+                        self.bind(e.value, T("slice", (v, const(i) if i else NONE, hi_)), st, stmt, record)
+                    else:
+                        self.bind(e.value, T("unknown", ("starred-unpack",)), st, stmt, record)
                 elif lit_ and any(isinstance(e2, ast.Starred) for e2 in tgt.elts[:i]):
                     self.bind(e, v.a[0][len(v.a[0]) - (n - i)], st, stmt, record)
+                elif any(isinstance(e2, ast.Starred) for e2 in tgt.elts[:i]):
+                    # a name after the star is counted from the end: *_, end = xs gives xs[-1]
+                    self.bind(e, self.index_term(v, const(i - n), None), st, stmt, record)
                 else:
                     self.bind(e, self.index_term(v, const(i), n), st, stmt, record)
         elif isinstance(tgt, ast.Attribute):
@@ -2890,6 +2900,12 @@ class _Frame:
         return self.eval(sl, st)
 
     def e_Subscript(self, n, st):
+        if isinstance(n.value, ast.Call) and isinstance(n.value.func, ast.Name) and n.value.func.id == "globals" \
+                and not n.value.args and not n.value.keywords and "globals" not in st.env and not isinstance(n.slice, ast.Slice):
+            # globals()['name']: the module-level object of that name
+            key_ = self.eval(n.slice, st)
+            if key_.op == "const" and isinstance(key_.a[0], str) and key_.a[0].isidentifier():
+                return self.eval(ast.copy_location(ast.Name(id=key_.a[0], ctx=ast.Load()), n), State({}, st.heap, st.pc))
         base = self.eval(n.value, st)
         if isinstance(n.slice, ast.Slice):
             lo, hi, step = self.eval(n.slice.lower, st), self.eval(n.slice.upper, st), self.eval(n.slice.step, st)
@@ -3452,6 +3468,10 @@ class _Frame:
                 folded = _fold_cmp(opname, left.a[0], right.a[0])
             elif right.op in ("tuple", "list") and opname in ("in", "not in") and not right.a[0]:
                 folded = opname == "not in"
+            elif right.op in ("tuple", "list", "set") and opname in ("in", "not in") and left.op in ("class", "func", "enum") \
+                    and all(x.op in ("class", "func", "enum", "const") for x in right.a[0]):
+                # a class / function / member looked for in a literal collection of such objects: decided by identity
+                folded = (left in right.a[0]) == (opname == "in")
             elif opname in ("in", "not in") and left.op == "const" and right.op == "global" \
                     and right.a[0].startswith("pykdebugparser."):
                 members_ = self._constant_members(right.a[0])
@@ -3656,6 +3676,18 @@ class _Frame:
             and len(g.iter.args) == 1 and not g.iter.keywords and isinstance(g.iter.args[0], ast.Name) \
             and "enumerate" not in st.env
         attr_table = isinstance(g.iter, ast.Attribute) and isinstance(g.iter.value, ast.Name) and g.iter.value.id in ("self", "cls")
+        derived = self._derived_rows(g.iter, st) if kind in ("dict", "list", "gen") and not g.ifs else None
+        if derived is not None:
+            # the names of an enum class / the keys, values or pairs of a module-level dict literal: a constant table of rows
+            out_ = []
+            for item in derived:
+                inner = State(dict(st.env), st.heap, st.pc)
+                self.bind(g.target, item, inner, n, record=False)
+                elts = tuple(self.eval(e, inner) for e in elt_nodes)
+                out_.append(elts[0] if len(elts) == 1 else T("tuple", (elts,)))
+            if kind == "dict":
+                return T("dict", (tuple((o.a[0][0], o.a[0][1]) for o in out_),))
+            return T("list", (tuple(out_),))
         if not inline and not isinstance(g.iter, ast.Name) and not enumerated and not attr_table \
                 and not (isinstance(g.iter, ast.Call) and isinstance(g.iter.func, ast.Name)
                          and g.iter.func.id == "range" and 1 <= len(g.iter.args) <= 3):
@@ -3764,6 +3796,55 @@ class _Frame:
         if kind == "dict":
             return T("dict", (tuple((o.a[0][0], o.a[0][1]) for o in out),))
         return T("list", (tuple(out),))
+
+    def _derived_rows(self, it, st):
+        """Rows of `for x in E.__members__` (the member names, aliases included), `for m in E.__members__.values()`, and of
+        `for v in D.values()` / `D.keys()` / `D.items()` / `for k in D` with D a module-level dict literal of at most 64
+        constant-keyed entries of this package; None for anything else."""
+        node, how = it, "keys"
+        if isinstance(it, ast.Call) and isinstance(it.func, ast.Attribute) and it.func.attr in ("values", "keys", "items") \
+                and not it.args and not it.keywords:
+            node, how = it.func.value, it.func.attr
+        if isinstance(node, ast.Attribute) and node.attr == "__members__":
+            dn = self.repo.dotted(self.mod, node.value)
+            f_ = self.repo.lookup(dn) if dn else None
+            if f_ and f_[0] == "class" and f_[2].enum_kind and 0 < len(f_[2].members) <= 64:
+                names = [nm for nm, _ in f_[2].members]
+                members = [T("enum", (f_[2].qualname, nm)) for nm in names]
+                if how == "keys":
+                    return [const(nm) for nm in names]
+                if how == "values":
+                    return members
+                return [T("tuple", ((const(nm), m),)) for nm, m in zip(names, members)]
+            return None
+        if isinstance(node, ast.Name) and node.id not in st.env and how == "keys" and node is it:
+            dn = self.repo.dotted(self.mod, node)
+            f_ = self.repo.lookup(dn) if dn else None
+            if f_ and f_[0] == "class" and f_[2].enum_kind in ("Enum", "IntEnum") and 0 < len(f_[2].members) <= 64 \
+                    and self.qualname.endswith(".<module>"):
+                # iterating the class (in module-level table building): its members in definition order, a second name of a
+                # value (an alias) left out
+                seen_, rows_ = set(), []
+                for nm, val in f_[2].members:
+                    if val in seen_:
+                        continue
+                    seen_.add(val)
+                    rows_.append(T("enum", (f_[2].qualname, nm)))
+                return rows_
+        if isinstance(node, ast.Name) and node.id not in st.env:
+            dn = self.repo.dotted(self.mod, node)
+            f_ = self.repo.lookup(dn) if dn else None
+            if f_ and f_[0] == "const" and isinstance(f_[2], ast.Dict) and 0 < len(f_[2].keys) <= 64 \
+                    and all(isinstance(k, ast.Constant) for k in f_[2].keys):
+                fr_ = _Frame(self.I, f_[1], self.fnode, None, Record(), f"{f_[1].name}.<module>", self.depth + 1, self.stack)
+                tv_ = fr_.eval(f_[2], State({}, {}, ()))
+                if tv_.op == "dict" and all(v.op in ("class", "func", "enum", "const", "global") for _, v in tv_.a[0]):
+                    if how == "keys":
+                        return [k for k, _ in tv_.a[0]]
+                    if how == "values":
+                        return [v for _, v in tv_.a[0]]
+                    return [T("tuple", ((k, v),)) for k, v in tv_.a[0]]
+        return None
 
     def _comp(self, kind, n, elt_nodes, st):
         unrolled = self._comp_over_table(kind, n, elt_nodes, st)
